@@ -24,8 +24,11 @@ Section ART1.
   Definition art1_update (x w : list N) : option (list N) :=
     let t := vand x (art1_td w (length x)) in
     bu <- art1_scale t (l1norm t) ;; Some (bu ++ t).
-  (* new_weight scales by L / (L - 1 + dim) *)
+  (* new_weight scales by L / (L - 1 + |x|), like update (/repo fix "ART1.new_weight scales the bottom-up weights by
+     L/(L-1+|t|)"; before the fix the divisor was L - 1 + dim) *)
   Definition art1_new (x : list N) : option (list N) :=
+    bu <- art1_scale x (l1norm x) ;; Some (bu ++ x).
+  Definition art1_new_before_fix (x : list N) : option (list N) :=
     bu <- art1_scale x (nofZ (Z.of_nat (length x))) ;; Some (bu ++ x).
   Definition art1_valid (x : list N) : bool := forallb (fun a => neqb a n0 || neqb a n1) x.
 
